@@ -167,6 +167,12 @@ func Quiesce() { time.Sleep(200 * time.Millisecond) }
 // LogPrints: number of log.Println/Printf calls so far (gosym only).
 func LogPrints() int { return 0 }
 
+// Here returns the file and line of its call site.
+func Here() (string, int) {
+	_, file, line, _ := runtime.Caller(1)
+	return file, line
+}
+
 // AtomicOps: number of sync/atomic operations executed so far (gosym only; natively 0).
 func AtomicOps() int { return 0 }
 
